@@ -537,8 +537,17 @@ macro_rules! __destructuring__type_assert {
             $crate::macros::destructuring::assert_same_type(expected, $variable)
         }
     };
-    ((type $type:ty) $variable:ident) => {
-        let _: $type = $variable;
+    ((type $($type:tt)*) $variable:ident) => {
+        let _: $($type)* = $variable;
+
+        // assert that `$type` is a struct, not a union
+        // (`..` patterns aren't allowed in union patterns)
+        #[allow(unreachable_code)]
+        if false {
+            loop {}
+
+            let _expected @ $($type)* {..};
+        }
     };
 }
 
